@@ -318,6 +318,11 @@ func c04(r *core.Run) {
 					a, b = ca.X, ca.Y
 				case ca.Kind == "callbool" && ca.Call != nil && len(p.Callees(ca.Call)) == 0 && strings.HasSuffix(core.CalleeFullName(ca.Call), ".Equals") && len(ca.Call.Call.Args) == 2:
 					a, b = ca.Call.Call.Args[0], ca.Call.Call.Args[1]
+				case ca.Kind == "callbool" && ca.Call != nil:
+					var okh bool
+					if a, b, okh = equalityHelper(p, ca.Call); !okh {
+						return false
+					}
 				default:
 					return false
 				}
@@ -634,7 +639,33 @@ func mergesExisting(p *core.Program, v ssa.Value, ctor *ssa.Function, set *core.
 			return false
 		}
 	}
-	return false
+	// read through the record getter: a getter of the same prefix is called with the key material the record is written
+	// under (its Id), and the receiver is exactly the Coins of what that getter returned
+	okGetter := false
+	allInstrs(ctor, func(in ssa.Instruction) {
+		call, isCall := in.(*ssa.Call)
+		if !isCall {
+			return
+		}
+		for _, cal := range p.Callees(call) {
+			gi := p.StoreGetter(cal)
+			if gi == nil || gi.Module+"/"+gi.Prefix != set.Module+"/"+set.Prefix {
+				continue
+			}
+			for _, a := range dataArgs(call) {
+				at := tb.Term(a)
+				if setKey != "" && (at == setKey || strings.Contains(setKey, at) || strings.Contains(at, setKey)) {
+					pr := p.ProvOf(c.Call.Args[0], "")
+					if pr.All(func(a core.Atom) bool {
+						return a.Kind == "store" && a.Name == set.Module+"/"+set.Prefix && strings.HasPrefix(strings.TrimPrefix(a.Path, "."), "Coins")
+					}) {
+						okGetter = true
+					}
+				}
+			}
+		}
+	})
+	return okGetter
 }
 
 // isGaugeCtor: fn builds a payment gauge record, stores it (directly or through the record setter) and returns it.
